@@ -47,7 +47,104 @@ def cmp_wireout(prop, case, impl, model):
         out.append(('disagree', 'wire-out:wire-bytes', 'model wire (%s bytes) differs from implementation wire (%s bytes)' % (model.get('n'), impl.get('n'))))
     return out
 
+def _norm_err(e):
+    # after an error the library's timeout goroutine may close the connection concurrently: a transport
+    # error and net.ErrClosed are the same observable class
+    return 'connerr' if e in ('transporteof', 'transportfail', 'closed') else e
+
+def _parse_obs(o):
+    out = []
+    for x in (o or '').split(','):
+        if not x:
+            continue
+        f = x.split(':')
+        if f[0] == 'R':
+            out.append(('R', f[1] if not f[1].startswith('err=') else 'err', _norm_err(x[2:][4:]) if f[1].startswith('err=') else None))
+        elif f[0] == 'M':
+            st = ':'.join(f[3:])
+            out.append(('M', (f[1], f[2]), 'eof' if st == 'eof' else _norm_err(st[4:])))
+        else:
+            out.append(('?', x, None))
+    return out
+
+def _reply_eq(i, m):
+    if m.startswith('8:code='):
+        code = int(m[7:])
+        return i.startswith('8:') and i[2:6] == '%04x' % code
+    return i == m
+
+def cmp_wirein(prop, case, impl, model):
+    if 'PANIC' in impl:
+        return [('violation', 'wire-in:panic', 'the library panicked: ' + impl['PANIC'][:300])]
+    if 'hang' in impl:
+        return [('violation', 'wire-in:hang', 'read script did not terminate: ' + impl['hang'])]
+    if 'dialerr' in impl:
+        return [('disagree', 'wire-in:handshake', 'could not establish the scripted connection: ' + impl['dialerr'])]
+    if 'modelerror' in model:
+        return [('disagree', 'wire-in:modelerror', model['modelerror'][:300])]
+    out = []
+    io_, mo = _parse_obs(impl.get('obs')), _parse_obs(model.get('obs'))
+    n = min(len(io_), len(mo))
+    for k in range(n):
+        a, b = io_[k], mo[k]
+        if a == b:
+            continue
+        if a[0] == 'M' and b[0] == 'M':
+            if a[2] == 'eof' and b[2] != 'eof':
+                kind = 'limit' if b[2] == 'limit' else 'truncated'
+                out.append(('violation', 'wire-in:clean-end-of-%s-message' % kind, 'message %d: the library reported a clean end, the reference says %s' % (k, b[2])))
+            elif a[2] == 'eof' and b[2] == 'eof':
+                out.append(('violation', 'wire-in:payload-differs', 'message %d delivered %s bytes fnv %s, reference %s bytes fnv %s' % (k, a[1][0], a[1][1], b[1][0], b[1][1])))
+            elif a[2] != 'eof' and b[2] == 'eof':
+                out.append(('violation', 'wire-in:valid-message-failed', 'message %d failed with %s, the reference delivers it' % (k, a[2])))
+            elif a[1] != b[1]:
+                # a failing message: what was handed to the caller must be a prefix of what the reference hands out
+                # (itself a prefix of the payload); the amount may differ when the connection is torn down concurrently
+                fi, fm = impl.get('faildata', '?'), model.get('faildata', '?')
+                fi = '' if fi == '-' else fi
+                fm = '' if fm == '-' else fm
+                if fi == '?' or fm == '?' or not fm.startswith(fi):
+                    out.append(('violation', 'wire-in:partial-data-not-a-prefix', 'failing message %d handed out %s bytes fnv %s, reference %s bytes fnv %s' % (k, a[1][0], a[1][1], b[1][0], b[1][1])))
+                elif a[2] != b[2]:
+                    out.append(('disagree', 'wire-in:error-class', 'message %d failed with %s, model %s' % (k, a[2], b[2])))
+            else:
+                out.append(('disagree', 'wire-in:error-class', 'message %d failed with %s, model %s' % (k, a[2], b[2])))
+        elif a[0] == 'R' and b[0] == 'R':
+            if a[1] != 'err' and b[1] == 'err':
+                out.append(('violation', 'wire-in:violation-accepted', 'Reader call %d returned a message, the reference rejects the frame (%s)' % (k, b[2])))
+            elif a[1] == 'err' and b[1] != 'err':
+                out.append(('violation', 'wire-in:valid-message-failed', 'Reader call %d failed with %s, the reference delivers a message' % (k, a[2])))
+            elif a[1] != b[1]:
+                out.append(('violation', 'wire-in:message-type', 'Reader call %d returned type %s, reference %s' % (k, a[1], b[1])))
+            else:
+                out.append(('disagree', 'wire-in:error-class', 'Reader call %d failed with %s, model %s' % (k, a[2], b[2])))
+        else:
+            out.append(('disagree', 'wire-in:shape', 'observation %d differs in kind' % k))
+        break
+    if not out and len(io_) != len(mo):
+        out.append(('disagree', 'wire-in:length', 'implementation made %d observations, model %d' % (len(io_), len(mo))))
+    ir = [x for x in (impl.get('replies') or '-').split(',') if x != '-']
+    mr = [x for x in (model.get('replies') or '-').split(',') if x != '-']
+    if not out:
+        if len(ir) != len(mr) or not all(_reply_eq(a, b) for a, b in zip(ir, mr)):
+            pi = [x for x in ir if x.startswith('10:')]
+            pm = [x for x in mr if x.startswith('10:')]
+            last = mo[-1] if mo else None
+            lazy_ok = last is not None and last[0] == 'M' and last[2] in ('limit', 'other') and pm[:len(pi)] == pi
+            ci = [x for x in ir if x.startswith('8:')]
+            cm = [x for x in mr if x.startswith('8:')]
+            if lazy_ok and len(ci) == len(cm) and all(_reply_eq(a, b) for a, b in zip(ci, cm)):
+                # the model pulls a compressed message eagerly; the library stops pulling at the limit / corrupt data:
+                # the Pongs it wrote are a prefix of the model's (same order, same payloads)
+                pass
+            elif pi != pm:
+                out.append(('violation', 'wire-in:pongs-differ', 'pongs written %s, reference %s' % (','.join(pi)[:200], ','.join(pm)[:200])))
+            else:
+                out.append(('violation', 'wire-in:close-reply-differs', 'close frames written %s, reference %s' % ([x[:40] for x in ir if x.startswith('8:')], [x[:40] for x in mr if x.startswith('8:')])))
+    return out
+
 COMPARE = {
+    'wire-in': cmp_wirein,
     'mask': cmp_mask,
     'wire-out': cmp_wireout,
 }
@@ -58,6 +155,8 @@ def nontrivial(suite, case, impl):
         m = re.match(r'gen:\w+:(\d+):', d)
         n = int(m.group(1)) if m else (0 if d == '-' else len(d) // 2)
         return n >= 4
+    if suite == 'wire-in':
+        return case.get('ops', '').count('R') > 1 and len(case.get('stream', '')) > 16
     if suite == 'wire-out':
         return int(impl.get('n', '0') or 0) > 200 or '|' in case.get('prog', '')
     return True
@@ -70,7 +169,51 @@ COMMON_TRUSTED = [
     'translator /verif/tools/constx (Go constants and validWireCloseCode -> coq/Gen/*.v)',
 ]
 
+WIREIN_RULE = ('wire-in suite: seeded peer byte streams = 1-4 messages (plain / compressed at 5 deflate levels incl. stored and Huffman-only, '
+               'BFINAL endings, > 1000:1 bombs) x fragmentation {none, random, per byte, empty fragments} x pings/pongs between and inside messages, then '
+               'valid | one injected violation per clause | cut at a random offset | garbage / bit flips; every cut offset of scripted 3-message streams; '
+               'transport chunking {whole,1,3,7,100,4096} x ending {EOF, failure}; both roles x {no compression, 4 (cnct,snct) combinations}; read scripts with '
+               'buffer sizes {1,7,512,4096,32768,100000,ReadAll} and SetReadLimit. non-trivial = at least two Reader calls and a stream > 8 bytes; distinct = distinct case line')
+READER_TRUST = ['Reader model hand-written from read.go / frame.go / close.go; tie = every observation (message types, delivered bytes, where and how reading fails, '
+                'Pongs and Close frames written) equals the extracted model\'s on the same byte stream, chunking and ending',
+                'bufio.Reader / io.ReadFull deliver the concatenation of what arrives independent of chunking (assumed; every case is run with a scripted chunking)']
+
 PROPS = {
+    'C03': dict(
+        suites=['wire-in'], rule=WIREIN_RULE, trusted=COMMON_TRUSTED + READER_TRUST + [FLATE_ASSUME],
+        assumptions=[FLATE_ASSUME, 'panics inside the Go standard library on hostile input are covered by the correspondence run only (any panic is an observation no model run produces)'],
+        level_text='Theorems (every state / input): each header-level violation of the property\'s list is rejected by readLoop before any data is handed out; top-bit lengths '
+                   'and malformed Close payloads fail; header decode∘encode = id. Whole-stream equality with the reference decoder is carried by the correspondence '
+                   '(model = library on every generated stream) — the stream-level refinement theorem is stated in DESIGN.md and not yet proved (partial).',
+        level_note='partial: step-level theorems proved; stream-level C03_valid / C03_first_violation pending. Compressed content via the inflate oracle.',
+        technique='Coq proof (case analysis over the header / control-frame paths) + differential run of the extracted Reader model vs the library over scripted raw peers',
+    ),
+    'C04': dict(
+        suites=['wire-in'], rule=WIREIN_RULE, trusted=COMMON_TRUSTED + READER_TRUST + [FLATE_ASSUME],
+        assumptions=[FLATE_ASSUME],
+        level_text='Theorems: the payload stream of a message reports its end only in a state where the final frame has been consumed completely; Read on an uncompressed '
+                   'message reports a clean end only then; a transport that ended inside a payload fails the read. Every crash point (cut offset) of scripted streams is '
+                   'run through model and library.',
+        level_note='partial: step-level theorems; the history-level statement (every cut of every valid script) is carried by the exhaustive cut sweeps of the correspondence.',
+        technique='Coq proof (induction on the frame loop) + differential run over every cut offset x {EOF, failure} x buffer sizes',
+    ),
+    'C08': dict(
+        suites=['wire-in'], rule=WIREIN_RULE, trusted=COMMON_TRUSTED + READER_TRUST + [FLATE_ASSUME],
+        assumptions=[FLATE_ASSUME, 'real heap usage is outside the model: the model state holds no buffer sized by a declared length; memory is not measured by this check'],
+        not_covered=['actual heap allocation (runtime behaviour)'],
+        level_text='Theorems: after limit+1 bytes every Read fails with the limit error and writes Close 1009; decoded lengths are < 2^63 and top-bit lengths are rejected; '
+                   'the default limit constant is regenerated from read.go. Limits around the boundary, changed between messages, and compression bombs are run through model and library.',
+        level_note='partial: memory bound is a statement about the model\'s state only; within-limit delivery is carried by the correspondence.',
+        technique='Coq proof + differential run (limits -1,0,1,125,1000,65536,default; sizes limit-1..much larger; bombs)',
+    ),
+    'C15': dict(
+        suites=['wire-in'], rule=WIREIN_RULE, trusted=COMMON_TRUSTED + READER_TRUST,
+        assumptions=['the Ping/Pong matching of concurrent Ping calls is covered by the ping suite when present (not by this read-side model)'],
+        level_text='Theorems (read side): every received Ping is answered by one Pong with the identical payload, in order; Pongs change nothing on the wire. Pings of length 0..125 '
+                   'before, between and inside fragmented (compressed) messages are run through model and library and the Pongs compared.',
+        level_note='partial: the caller side (Ping returns only after its own Pong; concurrent pings) is pending.',
+        technique='Coq proof + differential run of the extracted Reader model vs the library',
+    ),
     'C02': dict(
         suites=['wire-out'],
         rule='wire-out suite: seeded programs of Write / Writer(chunks) / Ping / Close on a library endpoint (both roles x {no compression, 4 (cnct,snct) '
